@@ -906,6 +906,7 @@ class BlockNode(AstNode, NamespaceMixin):
 
     Blocks can be added to a LibraryNode, NamespaceNode or ClassNode.
     """
+    is_block = True
 
     def __init__(self, parent, format=None, options=None, **kwargs):
         # From arguments
@@ -916,7 +917,8 @@ class BlockNode(AstNode, NamespaceMixin):
         self.classes = parent.classes
         self.enums = parent.enums
         self.functions = parent.functions
-        self.namespaces = parent.namespaces
+        # A class has no namespaces of its own.
+        self.namespaces = getattr(parent, "namespaces", [])
         self.typedefs = parent.typedefs
         self.variables = parent.variables
         self.scope = parent.scope
